@@ -674,33 +674,47 @@ func classifyEntry(n *node, inBatch bool) entry {
 	badType := false
 	for _, fold := range []bool{true, false} {
 		for _, last := range []bool{true, false} {
-			v := &node{k: 'o'}
-			pos := map[string]int{}
-			extra := false
-			for i, k := range n.keys {
-				e := envelopeName(k, fold)
-				if e == "" {
-					extra = true
-					continue
-				}
-				if (e == "jsonrpc" || e == "method") && n.kids[i].k != 's' {
-					badType = true
-				}
-				if j, ok := pos[e]; ok {
-					if last {
-						v.kids[j] = n.kids[i]
+			for _, nullNoop := range []bool{false, true} {
+				// nullNoop: an occurrence with value null leaves what another occurrence of the same member
+				// set (encoding/json: null into a non-pointer field is a no-op, so `"jsonrpc":"2.0","jsonrpc":null`
+				// reads as "2.0")
+				occ := map[string]int{}
+				for i, k := range n.keys {
+					if e := envelopeName(k, fold); e != "" && n.kids[i].k != 'z' {
+						occ[e]++
 					}
-					continue
 				}
-				pos[e] = len(v.keys)
-				v.keys = append(v.keys, e)
-				v.kids = append(v.kids, n.kids[i])
+				v := &node{k: 'o'}
+				pos := map[string]int{}
+				extra := false
+				for i, k := range n.keys {
+					e := envelopeName(k, fold)
+					if e == "" {
+						extra = true
+						continue
+					}
+					if nullNoop && n.kids[i].k == 'z' && occ[e] > 0 {
+						continue
+					}
+					if (e == "jsonrpc" || e == "method") && n.kids[i].k != 's' {
+						badType = true
+					}
+					if j, ok := pos[e]; ok {
+						if last {
+							v.kids[j] = n.kids[i]
+						}
+						continue
+					}
+					pos[e] = len(v.keys)
+					v.keys = append(v.keys, e)
+					v.kids = append(v.kids, n.kids[i])
+				}
+				if extra {
+					v.keys = append(v.keys, "x-other-member")
+					v.kids = append(v.kids, &node{k: 'z'})
+				}
+				addAlts(classifyPlain(v, inBatch))
 			}
-			if extra {
-				v.keys = append(v.keys, "x-other-member")
-				v.kids = append(v.kids, &node{k: 'z'})
-			}
-			addAlts(classifyPlain(v, inBatch))
 		}
 	}
 	if badType {
